@@ -1,11 +1,110 @@
 (* C01 — tree links stay a well-formed forest under every mutation history.
-   This file contains only the property theorems; the proofs live in Heap/ForestWF.v. *)
-From BT Require Import Base.Prelude Heap.Forest Spec.PForest.
+   Only the property theorems; proofs are in Heap/ForestWF.v, ForestOps.v, ForestRollback.v,
+   ForestStep.v, ForestRefl.v.  Model: Heap/Forest.v (transliteration of basenode.py / node.py). *)
+From Coq Require Import Sorting.Permutation.
+From BT Require Import Base.Prelude Base.Str Heap.Forest Heap.ForestWF Heap.ForestOps
+     Heap.ForestStep Heap.ForestRefl Spec.PForest.
 
-Theorem C01_init : forall n names seps, wf_b (init n names seps) = true.
-Proof.
-  intros n names seps. unfold wf_b, init; cbn.
-  apply andb_true_iff; split; apply forallb_forall; intros x _; [reflexivity|].
-  destruct n; reflexivity.
-Qed.
+(* the forest invariant: a node is listed exactly once, by exactly its parent; listed children
+   name that parent; links stay among the live nodes; no node is its own ancestor (ghost rank) *)
+Theorem C01_init : forall n names seps, WF (init n names seps).
+Proof. exact WF_init. Qed.
 Print Assumptions C01_init.
+
+(* every operation — accepted, rejected by a guard, or failing in a user hook; valid or invalid
+   arguments; checks on or off — preserves it *)
+Theorem C01_step_preserves_WF : forall cfg s o, WF s -> WF (fst (step cfg s o)).
+Proof. exact step_WF. Qed.
+Print Assumptions C01_step_preserves_WF.
+
+Theorem C01_reachable : forall cfg n names seps ops, WF (run cfg (init n names seps) ops).
+Proof. intros. apply run_WF, WF_init. Qed.
+Print Assumptions C01_reachable.
+
+(* walking parents from any node terminates at a root (the fuel of `ancestors` is never exhausted) *)
+Theorem C01_walk_terminates : forall s c, WF s -> par s (last (ancestors s c) c) = None.
+Proof. intros s c [_ _ Hb [r Hr]]. exact (ancestors_reach_root s r Hr Hb c). Qed.
+Print Assumptions C01_walk_terminates.
+
+Theorem C01_no_node_is_its_own_ancestor : forall s c, WF s -> ~ In c (ancestors s c).
+Proof. exact WF_not_own_ancestor. Qed.
+Print Assumptions C01_no_node_is_its_own_ancestor.
+
+(* documented effects of accepted operations *)
+Theorem C01_effect_set_parent : forall cfg ft s c a s',
+  WF s -> set_parent cfg ft s c a = (s', Ok) ->
+  (forall x, par s' x = if Nat.eqb x c then np_of a else par s x)
+  /\ (forall q, kids s' q = remove1 c (kids s q) ++ (if is_parent (np_of a) q then [c] else []))
+  /\ size s' = size s.
+Proof. exact set_parent_effect. Qed.
+Print Assumptions C01_effect_set_parent.
+
+Theorem C01_effect_set_children : forall cfg ft s p cont args s',
+  WF s -> p < size s -> forallb (arg_in_range s) args = true ->
+  set_children cfg ft s p cont args = (s', Ok) ->
+  let news := ids_of args in
+  size s' = size s
+  /\ (forall x, par s' x = if memb x news then Some p
+                           else if memb x (kids s p) then None else par s x)
+  /\ kids s' p = news
+  /\ (forall q, q <> p -> kids s' q = filter (notin news) (kids s q)).
+Proof. exact set_children_effect. Qed.
+Print Assumptions C01_effect_set_children.
+
+Theorem C01_effect_del : forall s p, WF s ->
+  let s' := del_children s p in
+  WF s' /\ size s' = size s
+  /\ (forall x, par s' x = if memb x (kids s p) then None else par s x)
+  /\ kids s' p = [] /\ (forall q, q <> p -> kids s' q = kids s q).
+Proof. exact del_children_spec. Qed.
+Print Assumptions C01_effect_del.
+
+Theorem C01_effect_sort : forall s p keys rv,
+  let s' := set_kids s p (py_sort (fun x => nth x keys 0) rv (kids s p)) in
+  Permutation (kids s' p) (kids s p)
+  /\ (forall q, q <> p -> kids s' q = kids s q) /\ (forall x, par s' x = par s x).
+Proof. exact sort_effect. Qed.
+Print Assumptions C01_effect_sort.
+
+(* what must be rejected is rejected, and the state is untouched *)
+Theorem C01_rejects_parent : forall cfg ft s c a,
+  assertions cfg = true ->
+  (a = AJunk \/ a = ANode c \/ (exists p, a = ANode p /\ In c (ancestors s p))) ->
+  exists e, set_parent cfg ft s c a = (s, Err e) /\ (e = TypeError \/ e = LoopError).
+Proof. exact set_parent_rejects. Qed.
+Print Assumptions C01_rejects_parent.
+
+Theorem C01_rejects_children : forall cfg ft s p cont args,
+  assertions cfg = true ->
+  (cont = COther \/ In AJunk args \/ In ANone args \/ In (ANode p) args
+   \/ (exists x, In (ANode x) args /\ In x (ancestors s p)) \/ ~ NoDup (ids_of args)) ->
+  exists e, set_children cfg ft s p cont args = (s, Err e).
+Proof. exact set_children_rejects. Qed.
+Print Assumptions C01_rejects_children.
+
+(* the boolean predicate the check evaluates on every implementation step holds of every model step *)
+Theorem C01_model_steps_satisfy_prop : forall cfg s o, WF s ->
+  let r := step cfg s o in prop_C01_step cfg s o (fst r) (is_ok (snd r)) = true.
+Proof. exact model_step_C01. Qed.
+Print Assumptions C01_model_steps_satisfy_prop.
+
+Theorem C01_wf_b_of_reachable : forall cfg n names seps ops,
+  wf_b (run cfg (init n names seps) ops) = true.
+Proof. intros. apply WF_wf_b, run_WF, WF_init. Qed.
+Print Assumptions C01_wf_b_of_reachable.
+
+(* non-vacuity: a concrete history on 5 nodes reaches a state with a 3-child parent, from which an
+   accepted re-parenting, a rejected loop and an accepted children assignment stealing two children
+   in non-ascending order are all exercised *)
+Definition ex_cfg := {| assertions := true; is_node := false |}.
+Definition ex_ops : list op :=
+  [ SetChildren 0 CList [ANode 1; ANode 2; ANode 3] NoFault;
+    SetParent 4 (ANode 2) NoFault;
+    SetParent 0 (ANode 4) NoFault;              (* ancestor loop: rejected *)
+    SetChildren 4 CList [ANode 3; ANode 1] NoFault ].
+Example C01_nonvacuous :
+  let t := trace ex_cfg (init 5 (fun _ => []) (fun _ => [])) ex_ops in
+  map (fun r => is_ok (snd r)) t = [true; true; false; true]
+  /\ kids (run ex_cfg (init 5 (fun _ => []) (fun _ => [])) ex_ops) 4 = [3; 1]
+  /\ kids (run ex_cfg (init 5 (fun _ => []) (fun _ => [])) ex_ops) 0 = [2].
+Proof. vm_compute. repeat split. Qed.
